@@ -234,7 +234,7 @@ PROPS = {
             'a multi-frame delivery buffers fewer than 2^32 bytes (otherwise the u32 section counter of IncompleteTransfer::append could overflow)',
             'the chained-buffer byte reader behind multi-frame decoding (util::ByteReader<Payload> as io::Read) is under contract in unit BYTEREADER: a read yields the concatenation of the frames\' payloads wherever they were cut; count_number_of_sections_and_offset is iterator/adapter code outside the Verus subset: assumed contract',
             'in unit REASM the link endpoint is a ghost-trace stand-in (on_complete_transfer decodes exactly the bytes it is given; on_transfer_state / on_incomplete_transfer are logged); the real ReceiverLink::on_complete_transfer / on_transfer_state / on_incomplete_transfer are under contract in unit LINK (unsettled-map bookkeeping, credit), with the message decoder behind them a stand-in',
-            'resumption (transfer.state = Received{..}, transfer.resume) may trim the buffer and is outside these contracts',
+            'resumption: ReceiverInner::on_resuming_transfer is under contract in unit REASM (a resuming transfer for another delivery is not spliced with the buffered one); trimming the buffer to the sender\'s resume point (keep_buffer_till_section_number_and_offset) is an assumed contract (it only trims)',
             'interleaving with other links of the session is the routing contract of unit SESSION (C11.route.transfer)']),
     'C18': dict(
         units=['TXN', 'TXNCTRL', 'TXNCOORD', 'SENDSPLIT', 'FRAMEENC', 'SESSWIRING', 'ACCSESS'], kani=[], level='proof', title='Transactions: listener-side resource table, controller-side wire content',
